@@ -155,4 +155,17 @@ def shut (c impl : List String) : Option Verdict := do
   pure { model := modelStr, oracle := ok, nontrivial := nt, note := note,
          agreeOverride := some (exact || late || exact2 || late2) }
 
+/-- `cw terminate | status nFinal served`: the advertiser's link-state channel is already closed when
+    it starts (the watcher has ended / the platform has none): it serves and stops as usual — exactly
+    one zero-lifetime RA iff terminating, and `Run` returns nil. -/
+def cw (c impl : List String) : Option Verdict := do
+  let term ← P.run P.bool c
+  let (status, nFinal, served) ← P.run (do let s ← P.tok; let n ← P.nat; let b ← P.bool; pure (s, n, b)) impl
+  let want := if term then 1 else 0
+  let model := s!"nil {want} 1"
+  let ok := status == "nil" && nFinal == want && served
+  pure { model := model, oracle := ok, nontrivial := true,
+         note := if status != "nil" then s!"Run reported {status} although the only thing wrong with the interface is that its link watcher has ended"
+           else if nFinal != want then "final RA not exactly once iff terminating" else if !served then "no initial RA" else "" }
+
 end Driver.C08
